@@ -274,6 +274,25 @@ def probe(ctx):
     for _ in range(150 if ctx.quick() else 1500):
         n = rng.randint(3, 14)
         single_roundtrip(ctx, G, n, rng.randrange(4 ** n))
+    # aliasing: no conversion or algebra call may modify its array arguments; repeated calls on the same objects agree
+    for _ in range(40 if ctx.quick() else 400):
+        n = rng.randint(1, 8)
+        fa = np.array([rng.randint(0, 1) for _ in range(2 * n + 2)], dtype=np.uint8)
+        fb = np.array([rng.randint(0, 1) for _ in range(2 * n + 2)], dtype=np.uint8)
+        batch = np.stack([fa, fb])
+        snap = (fa.copy(), fb.copy(), batch.copy())
+        def calls():
+            a, b = P(fa), P(fb)
+            return (bits((a @ b).F2), bits(a.inverse().F2), bool(a.commutate_with(b)), G.pauli_F2_to_str(fa)[0], int(G.pauli_F2_to_index(fa)),
+                    bits(G.pauli_F2_to_index(batch).astype(np.uint64) % 2), tuple(np.asarray(G.pauli_F2_to_str(batch)[0]).tolist()), mat_to_chars(a.full_matrix))
+        r1 = guarded(calls); r2 = guarded(calls)
+        rp = dict(op='aliasing', n=n, a=bits(snap[0]), b=bits(snap[1]))
+        if not (np.array_equal(fa, snap[0]) and np.array_equal(fb, snap[1]) and np.array_equal(batch, snap[2])):
+            ctx.fail('argument-modified', f'a Pauli routine modified its F2 argument ({bits(snap[0])},{bits(snap[1])})', rp)
+        elif r1 != r2:
+            ctx.fail('repeat-call-differs', f'the same calls on the same objects gave different results ({bits(snap[0])},{bits(snap[1])})', rp)
+        else:
+            ctx.probe_ok(('alias', bits(snap[0]), bits(snap[1])))
     # random larger n: product/commutation against dense matrices
     for _ in range(40 if ctx.quick() else 400):
         n = rng.randint(3, 6)
